@@ -314,7 +314,12 @@ def leanchecker(module):
 
 class Rng:
     def __init__(self, seed):
-        self.s = (seed * 0x9E3779B97F4A7C15 + 0x1234567) & 0xFFFFFFFFFFFFFFFF
+        # the state is a hash of the seed (not a multiple of the stream increment, which would make
+        # neighbouring seeds shifted copies of one stream)
+        z = (seed ^ 0x5851F42D4C957F2D) & 0xFFFFFFFFFFFFFFFF
+        z = ((z ^ (z >> 33)) * 0xFF51AFD7ED558CCD) & 0xFFFFFFFFFFFFFFFF
+        z = ((z ^ (z >> 33)) * 0xC4CEB9FE1A85EC53) & 0xFFFFFFFFFFFFFFFF
+        self.s = z ^ (z >> 33)
 
     def u64(self):
         self.s = (self.s + 0x9E3779B97F4A7C15) & 0xFFFFFFFFFFFFFFFF
